@@ -125,6 +125,24 @@ func simpleMatches(rules []string, requests []string, matchFn ...func(m matcher)
 		return true
 	}
 
+	if len(filtered) > 0 && filtered[0].reverse {
+		// all rules are reversed: match only if none of them matches positively
+		for _, v := range filtered {
+			positive := matcher{false, v.value}
+			for _, request := range requests {
+				if positive.match(request) {
+					return false
+				}
+			}
+			for _, match := range matchFn {
+				if match(positive) {
+					return false
+				}
+			}
+		}
+		return true
+	}
+
 	for _, v := range filtered {
 		for _, request := range requests {
 			if v.match(request) {
